@@ -125,6 +125,12 @@ def overhang(rows):
     return [(c, a - 1, b + 1, s) for c, a, b, s in rows]
 
 
+def overhang_right(rows):
+    """every entry grown by one base at its end only: no negative start anywhere, so only the per-chromosome upper bound
+    decides (a clip that compares with the largest chromosome instead of the entry's own one shows only here)"""
+    return [(c, a, b + 1, s) for c, a, b, s in rows]
+
+
 # ------------------------------------------------------------------ per-chromosome data carried by the genome
 def distinct_values(name, size):
     base = 10 * (NAME_MENU.index(name) + 1) if name in NAME_MENU else 90
